@@ -63,11 +63,19 @@ def refusals(env, rep, m):
             if kind == "other":
                 # the error of a typed read from bytes that were just taken out of the buffer: cannot occur when the bytes taken
                 # cover the widths read (reading from memory has no other failure)
-                whens = [t for t in p if t[0] == "when"]
-                taken = sum(int(t[2]) for t in p if t[0] == "take" and str(t[2]).isdigit())
-                widths = [WIDTH.get(re.sub(r"(be|le)$", "", t[1])) for t in p if t[0] == "read"]
-                if whens and re.match(r"^discr\(call\(ReadBytesExt::read_\w+\)\)$", whens[-1][1]) and whens[-1][2] == "1" and widths and None not in widths and sum(widths) <= taken:
-                    kind = "read-from-held-bytes"
+                # (whatever follows that branch - the error travelling up through helpers - is on a path that cannot be taken)
+                taken, need, known = 0, 0, True
+                for t in p:
+                    if t[0] == "take" and str(t[2]).isdigit():
+                        taken, need = int(t[2]), 0       # typed reads are over the bytes of the latest take
+                    elif t[0] == "read":
+                        w = WIDTH.get(re.sub(r"(be|le)$", "", t[1]))
+                        known = known and w is not None
+                        need += w or 0
+                    elif t[0] == "when" and re.match(r"^discr\(call\(ReadBytesExt::read_\w+\)\)$", t[1]) and t[2] == "1":
+                        if known and 0 < need <= taken:
+                            kind = "read-from-held-bytes"
+                        break
             if (kind, decisions) in seen:
                 continue
             seen.add((kind, decisions))
